@@ -234,6 +234,40 @@ def populate (hash256 : Bytes → Bytes) (total : Nat) (flagBits : List Bool) (h
     else if s.flagBits.any id then .error
     else .done r s.proved
 
+/-! #### one MerkleTree object used more than once -/
+
+/-- MerkleTree.__init__: the fresh tree -/
+def newTree (total : Nat) : TreeSt :=
+  { total := total, maxD := maxDepth total, nodes := fun _ _ => none, depth := 0, index := 0,
+    flagBits := [], hashes := [], proved := [] }
+
+/-- the loop again, also returning the tree as the call leaves it.  A step that raises has not touched the
+    tree (the only exceptions are `pop` from an empty list, before any assignment), so after an exception
+    the object is the state before that step. -/
+def runLoopSt (hash256 : Bytes → Bytes) : Nat → TreeSt → TreeSt × Option (Option Bytes)
+  | 0, s => (s, some none)
+  | fuel + 1, s =>
+    match s.get 0 0 with
+    | none => (s, none)
+    | some (some r) => (s, some (some r))
+    | some none =>
+      match step hash256 s with
+      | none => (s, none)
+      | some s' => runLoopSt hash256 fuel s'
+
+/-- populate_tree(flag_bits, hashes) on an existing MerkleTree object (fresh, finished, or left half way by an
+    exception): the tree afterwards and the outcome.  Nodes, cursor and `proved_txs` persist between calls.
+    Resuming half way, up to `max_depth` ancestors are revisited without popping a flag bit, hence the fuel. -/
+def populateOn (hash256 : Bytes → Bytes) (t : TreeSt) (flagBits : List Bool) (hashes : List Bytes) : TreeSt × PopOut :=
+  let r := runLoopSt hash256 (3 * flagBits.length + 3 * t.maxD + 4) { t with flagBits := flagBits, hashes := hashes }
+  match r.2 with
+  | none => (r.1, .error)
+  | some none => (r.1, .outOfFuel)
+  | some (some root) =>
+    if r.1.hashes.length ≠ 0 then (r.1, .error)
+    else if r.1.flagBits.any id then (r.1, .error)
+    else (r.1, .done root r.1.proved)
+
 /-- MerkleBlock.is_valid together with what `proved_txs()` returns afterwards (the tree is kept
     also when the roots differ).  `hashes` and `merkleRootField` are in the byte order of the
     parsed object (reversed wire order).  `none` = an exception. -/
